@@ -25,6 +25,9 @@ pub struct FrameAst {
     pub method: String,
     pub line: u64,
     pub file: Option<String>,
+    /// frame that carries a parameter list instead of a line (StackFrame::with_parameters)
+    #[serde(default)]
+    pub params: Option<String>,
 }
 
 #[derive(Clone, Debug, PartialEq, Eq, Serialize, Deserialize, Hash)]
@@ -139,7 +142,10 @@ macro_rules! impl_retracer {
                 let frames = t
                     .frames
                     .iter()
-                    .map(|f| mk_frame(&f.class, &f.method, f.line, f.file.as_deref()))
+                    .map(|f| match &f.params {
+                        Some(p) => StackFrame::with_parameters(&f.class, &f.method, p),
+                        None => mk_frame(&f.class, &f.method, f.line, f.file.as_deref()),
+                    })
                     .collect();
                 match &t.cause {
                     Some(c) => StackTrace::with_cause(exc, frames, to_trace(c)),
@@ -161,6 +167,7 @@ macro_rules! impl_retracer {
                             method: f.method().to_string(),
                             line: f.line() as u64,
                             file: f.file().map(|s| s.to_string()),
+                            params: f.parameters().map(|s| s.to_string()),
                         })
                         .collect(),
                     cause: t.cause().map(|c| Box::new(from_trace(c))),
